@@ -24,7 +24,7 @@ type JV struct {
 }
 
 var jsonNumSpellings = []string{"0", "1", "-1", "-0", "1.5", "1.50", "1e2", "1E+2", "2.71828", "0.000001", "1e-7", "123456789012", "1e21", "12345678", "100000", "1000000", "0.1", "3", "1e300", "-2.5e-3", "9007199254740993"}
-var jsonStrings = []string{"", "a", "b", "hello world", "é", "𝄞", "a\nb", "q\"q", "back\\slash", "#obj", "#arr", " ", "1", "true", "null", "tab\t", " "}
+var jsonStrings = []string{"", "a", "b", "hello world", "é", "𝄞", "a\nb", "q\"q", "back\\slash", "#obj", "#arr", " ", "1", "true", "null", "tab\t", " ", "[", "]", "{", "}", ",", ":"}
 var jsonKeys = []string{"a", "b", "c", "", "#obj", "key with space", "é", "a", "x-1", "0", "nil"}
 
 func GenJV(r *Rng, depth int) JV {
